@@ -308,7 +308,7 @@ impl<'a> Parser<'a> {
             if skip_token!(self, Token::Ident("if")) {
                 let expr2 = ok!(self.parse_or());
                 let expr3 = if skip_token!(self, Token::Ident("else")) {
-                    Some(ok!(self.parse_ifexpr()))
+                    Some(ok!(with_recursion_guard!(self, self.parse_ifexpr())))
                 } else {
                     None
                 };
@@ -934,7 +934,7 @@ impl<'a> Parser<'a> {
                 break;
             }
             items.push(if skip_token!(self, Token::ParenOpen) {
-                let rv = ok!(self.parse_assignment(dotted));
+                let rv = ok!(with_recursion_guard!(self, self.parse_assignment(dotted)));
                 expect_token!(self, Token::ParenClose, "`)`");
                 rv
             } else {
@@ -1007,7 +1007,7 @@ impl<'a> Parser<'a> {
                 rv
             }
             Some((Token::Ident("elif"), span)) => vec![ast::Stmt::IfCond(Spanned::new(
-                ok!(self.parse_if_cond()),
+                ok!(with_recursion_guard!(self, self.parse_if_cond())),
                 self.stream.expand_span(span),
             ))],
             _ => Vec::new(),
